@@ -99,9 +99,26 @@ func main() {
 		after := snapshot()
 		var h []int
 		for k := range after {
-			if after[k] != before[k] {
-				h = append(h, k)
-				freq[k]++
+			if d := after[k] - before[k]; d != 0 {
+				// feature = (block, hit-count bucket 1, 2, 3, 4-7, 8-15, 16-31, 32-127, 128+), as in AFL
+				b := 0
+				switch {
+				case d <= 3:
+					b = int(d) - 1
+				case d <= 7:
+					b = 3
+				case d <= 15:
+					b = 4
+				case d <= 31:
+					b = 5
+				case d <= 127:
+					b = 6
+				default:
+					b = 7
+				}
+				f := k*8 + b
+				h = append(h, f)
+				freq[f]++
 			}
 		}
 		es = append(es, entry{l.Desc.P, l.Desc.Q, l.Desc.Box, l.Desc.Scale, l.Fam})
@@ -154,5 +171,5 @@ func main() {
 	b, _ := json.MarshalIndent(outE, "", " ")
 	os.WriteFile(*outF, b, 0o644)
 	total := len(snapshot())
-	fmt.Printf("inputs %d, blocks %d, reached %d, rare (<= %.1f%% of the inputs) %d, corpus %d\n", n, total, len(freq), 100**rare, len(blocks), len(outE))
+	fmt.Printf("inputs %d, blocks %d, features (block x hit-count bucket) reached %d, rare (<= %.1f%% of the inputs) %d, corpus %d\n", n, total, len(freq), 100**rare, len(blocks), len(outE))
 }
